@@ -17,7 +17,8 @@ reports a broken obligation instead of silently keeping an old value):
     new addresses to s.addrs, and the closure is registered with
     ns.Tx().OnCommit(onCommit);
   * extendAddresses assigns s.addrs / next index / last address directly
-    (no OnCommit), RenameAccount assigns acctInfo.acctName directly.
+    (no OnCommit); RenameAccount assigns acctInfo.acctName directly, once,
+    after its type switch over default / watch-only account rows.
 """
 import os, re
 
@@ -103,8 +104,15 @@ def main(repo, outdir, write_if_changed):
     if "OnCommit" in eb or len(ASSIGN_IDX.findall(eb)) != 4 or not ASSIGN_ADDRS.search(eb):
         raise ExtractError("%s: extendAddresses no longer updates cache, indices and last addresses directly" % path)
     rn = func_body(src, r"^func \(s \*ScopedKeyManager\) RenameAccount\(", path)
-    if "OnCommit" in rn or not re.search(r"acctInfo\.acctName\s*=[^=]", rn):
+    assigns = [m.start() for m in re.finditer(r"acctInfo\.acctName\s*=[^=]", rn)]
+    if "OnCommit" in rn or not assigns:
         raise ExtractError("%s: RenameAccount no longer assigns the cached name directly" % path)
+    # one assignment, AFTER the type switch over the row kind (so that it
+    # serves default and watch-only account rows alike)
+    dflt = rn.rfind("default:")
+    if len(assigns) != 1 or dflt < 0 or assigns[0] < dflt or "case *dbWatchOnlyAccountRow" not in rn[:dflt]:
+        raise ExtractError("%s: RenameAccount: the cached name is not updated once, after the row type switch "
+                           "(model: both account kinds get the same update)" % path)
 
     text = """(** GENERATED by lib/extract_c08.py from waddrmgr/scoped_manager.go - do not edit;
     bin/extract rewrites it from the current source. *)
